@@ -15,7 +15,7 @@ ASSUMPTIONS = ["E5's validator labels which rules a mutated document breaks (29 
                "scalar parse_literal calls made by rule 5.6.1 are not counted as 'something ran' (DC14)"]
 BUDGET_S = {"quick": 150, "thorough": 3000}
 DEPTH = {"quick": 1, "thorough": 2}
-D1_KINDS = {"quick": ("R4", "R5", "R10", "R8"), "thorough": None}
+D1_KINDS = {"quick": ("R4", "R5", "R10"), "thorough": None}
 
 SUPPORTED = set(V.SUPPORTED) - {"5.6.2", "5.6.4"}
 
